@@ -40,8 +40,9 @@ pub fn remove_protection_of_long_packet(
         return Ok(None);
     }
 
-    let specific_bits = LongSpecificBits::from(*first_byte);
-    let pn_len = specific_bits.pn_len()?;
+    // The reserved bits are covered by the packet's AEAD: they can only be judged once the
+    // packet has been authenticated, see [`verify_long_reserved_bits`].
+    let pn_len = (*first_byte & <LongSpecificBits as GetPacketNumberLength>::PN_LEN_MASK) + 1;
     let (_, undecoded_pn) = take_pn_len(pn_len)(max_pn_buf).unwrap();
 
     Ok(Some(undecoded_pn))
@@ -83,10 +84,28 @@ pub fn remove_protection_of_short_packet(
     }
 
     let clear_bits = ShortSpecificBits::from(*first_byte);
-    let pn_len = clear_bits.pn_len()?;
+    // The reserved bits are covered by the packet's AEAD: they can only be judged once the
+    // packet has been authenticated, see [`verify_short_reserved_bits`].
+    let pn_len = (*first_byte & <ShortSpecificBits as GetPacketNumberLength>::PN_LEN_MASK) + 1;
     let (_, undecoded_pn) = take_pn_len(pn_len)(max_pn_buf).unwrap();
 
     Ok(Some((undecoded_pn, clear_bits.key_phase())))
+}
+
+/// Check the reserved bits of the first byte of a long packet whose header protection has
+/// been removed **and** whose body has been successfully decrypted (authenticated).
+///
+/// A non-zero value is a connection error of type PROTOCOL_VIOLATION, but only for a packet
+/// that really comes from the peer; an unauthenticated packet must be dropped instead.
+/// See [Section 17.2](https://www.rfc-editor.org/rfc/rfc9000.html#section-17.2-8.2).
+pub fn verify_long_reserved_bits(first_byte: u8) -> Result<(), Error> {
+    LongSpecificBits::from(first_byte).pn_len().map(|_| ())
+}
+
+/// The short packet counterpart of [`verify_long_reserved_bits`].
+/// See [Section 17.3.1](https://www.rfc-editor.org/rfc/rfc9000.html#section-17.3.1-4.8).
+pub fn verify_short_reserved_bits(first_byte: u8) -> Result<(), Error> {
+    ShortSpecificBits::from(first_byte).pn_len().map(|_| ())
 }
 
 /// Decrypt the body of a packet, applicable to both long and short packets.
